@@ -44,7 +44,10 @@ FORBIDDEN = [
 
 
 def log(*a):
-    print(*a, file=sys.stderr, flush=True)
+    try:
+        print(*a, file=sys.stderr, flush=True)
+    except (BrokenPipeError, OSError, ValueError):
+        pass        # progress lines are informational: a closed stderr must not change the verdict
 
 
 def sh(cmd, cwd=None, timeout=1200, env=None, input=None):
@@ -426,9 +429,23 @@ def coq_crosscheck(P, cases):
     src, expected = P.coq_cases(sample)
     d = os.path.join(BUILD, P.ID)
     os.makedirs(d, exist_ok=True)
-    f = os.path.join(d, "crosscheck.v")
+    f = os.path.join(d, "crosscheck_%d.v" % os.getpid())      # per process: two runs of one property must not share it
     open(f, "w").write(src)
-    rc, out = sh(["timeout", "300", "coqc", "-Q", COQ, "SWH", f], cwd=d, timeout=320)
+    # concurrent checks (another property, another VERIF_REPO) may have rebuilt parts of coq/ since this run's build:
+    # bring the tables and the model cone back to this run's state under the lock, then compile
+    with BuildLock():
+        gen_tables()
+        sh(["timeout", "1500", "make", "-j16"] + require_targets(P.EXTRACT), cwd=COQ, timeout=1600)
+        rc, out = sh(["timeout", "300", "coqc", "-Q", COQ, "SWH", f], cwd=d, timeout=320)
+    for ext in (".v", ".vo", ".vok", ".vos", ".glob"):
+        try:
+            os.unlink(f[:-2] + ext)
+        except OSError:
+            pass
+    try:
+        os.unlink(os.path.join(d, ".crosscheck_%d.aux" % os.getpid()))
+    except OSError:
+        pass
     if rc:
         return {"ok": False, "why": "coqc failed: " + out[-400:], "n": len(sample)}
     m = re.search(r"=\s*\[(.*?)\]\s*:\s*list N", out.replace("\n", " "), re.S)
@@ -734,7 +751,16 @@ def main(argv=None):
         seen = set()
         nontriv = set()
         dist = {}
-        cases = corpus_cases(P) + list(P.gen(ctx.rng, tier))
+        try:
+            cases = corpus_cases(P) + list(P.gen(ctx.rng, tier))
+        except Exception as e:
+            # some generators build their inputs with the library itself: a library that now refuses what it used to accept
+            # breaks the correspondence before the first case; the recorded corpus is still run
+            failures.append(("correspondence:case-generation-raised", repr(e) + "\n" + traceback.format_exc()[-1500:]))
+            try:
+                cases = corpus_cases(P)
+            except Exception:
+                cases = []
         B = 400
         for i in range(0, len(cases), B):
             batch = cases[i:i + B]
@@ -857,6 +883,18 @@ def main(argv=None):
         print(l)
     sys.stdout.flush()
     return 1 if violation_lines else 0
+
+
+def crashed(argv, exc, tb):
+    """the check itself raised: report it as a broken obligation (exit 1 with a VIOLATION line), never as a bare traceback"""
+    pid = next((a.upper() for a in argv if re.fullmatch(r"[Cc]\d\d", a)), "C00")
+    seed = int(os.environ.get("VERIF_SEED", "0") or 0)
+    if isinstance(exc, KeyboardInterrupt):
+        raise exc
+    path = write_replay(pid, seed, 0, {"property": pid, "kind": "no-failing-input-found", "obligation": "harness:check-crashed",
+                                        "detail": repr(exc) + "\n" + tb[-3000:], "seed": seed})
+    print(f"VIOLATION property={pid} replay={path} no-failing-input-found", flush=True)
+    return 1
 
 
 def replay_main(P, path):
